@@ -508,12 +508,25 @@ func c09R1(r *Report) {
 			}
 			key := fmt.Sprintf("call(%s,%s)/%s", c.writer, dir, fname(enclosingNamed(f)))
 			owner := enclosingNamed(f).Name()
+			// the enumerated sites, or private helpers factored out of them (reserveChunks)
+			inUnit := func(names ...string) bool {
+				var roots []*ssa.Function
+				for _, nm := range names {
+					if owner == nm {
+						return true
+					}
+					if rf := p.Func("tor", nm); rf != nil {
+						roots = append(roots, rf)
+					}
+				}
+				return len(roots) > 0 && relPkg(f) == "tor" && p.inUnitOf(enclosingNamed(f), roots...)
+			}
 			okSite := false
 			switch c.writer {
 			case "noteInFlight":
-				okSite = (dir == "inc" && (owner == "request" || owner == "maybeWebseed")) || (dir == "dec" && owner == "handleEvent")
+				okSite = (dir == "inc" && inUnit("request", "maybeWebseed")) || (dir == "dec" && inUnit("handleEvent"))
 			case "noteAvailable":
-				okSite = owner == "handleEvent"
+				okSite = inUnit("handleEvent")
 			}
 			if okSite {
 				r.Ok("R1", key, cs.Pos(), "%s %s site in %s", c.writer, dir, owner)
